@@ -535,7 +535,14 @@ func (fr *Frame) intBinop(op token.Token, a, b Term, ta, tb types.Type, pos toke
 			return c.tdiv(a, b), nil
 		case token.REM:
 			fr.safetyOb("div-zero", "", not(eq(b, Term{"0", SInt})), pos, "integer division by zero")
-			return mk(SInt, "-", a, mk(SInt, "*", b, c.tdiv(a, b))), nil
+			// Go's % truncates towards zero: sign of the dividend; written with SMT mod so that the
+			// solver knows 0 <= |r| < |b| without nonlinear reasoning
+			z := Term{"0", SInt}
+			absb := ite(mk(SBool, ">=", b, z), b, mk(SInt, "-", b))
+			if uns {
+				return mk(SInt, "mod", a, b), nil
+			}
+			return ite(mk(SBool, ">=", a, z), mk(SInt, "mod", a, absb), mk(SInt, "-", mk(SInt, "mod", mk(SInt, "-", a), absb))), nil
 		case token.EQL:
 			return eq(a, b), nil
 		case token.NEQ:
